@@ -250,7 +250,7 @@ func (f *Frame) step(b *ssa.BasicBlock, ins ssa.Instruction, st *State) bool {
 		f.env[x] = f.typeAssert(x, st)
 
 	case *ssa.Call:
-		if f.top && f.fc != nil && len(f.fc.Sites) > 0 {
+		if f.hasSites() {
 			extra := map[string]Value{}
 			for i, a := range x.Call.Args {
 				v := f.val(a)
@@ -261,7 +261,7 @@ func (f *Frame) step(b *ssa.BasicBlock, ins ssa.Instruction, st *State) bool {
 		}
 		res, cont := f.call(x, &x.Call, st)
 		f.env[x] = res
-		if f.top && f.fc != nil && len(f.fc.Sites) > 0 {
+		if f.hasSites() {
 			extra := map[string]Value{}
 			for i, a := range x.Call.Args {
 				v := f.val(a)
@@ -725,4 +725,12 @@ func allocEscapes(a *ssa.Alloc) bool {
 		}
 	}
 	return false
+}
+
+func (f *Frame) hasSites() bool {
+	root := f
+	for root.parent != nil {
+		root = root.parent
+	}
+	return root.top && root.fc != nil && len(root.fc.Sites) > 0
 }
